@@ -705,3 +705,344 @@ Section Fit.
   Lemma fit_total g : total T (fst (fit fitq g)) ≡ total T g.
   Proof. apply fit_slots_total. Qed.
 End Fit.
+
+(* ------------------------------------------------------------------ *)
+(* Part 3: GroupedValue (cookware amounts)                             *)
+
+(* a bare value is a unit-less quantity; no unit table is involved *)
+Definition vq (v : value) : qty := {| qval := v; qunit := None |}.
+Definition vcontrib (v : value) : summary := contrib [] (vq v).
+Definition gv_total (g : gv) : summary := sum_contrib [] (map vq g).
+
+(* the shape GroupedValue keeps: at most one numeric entry, and it is the first *)
+Definition gv_wf (g : gv) : Prop := Forall (fun v => is_text v = true) (tl g).
+
+Lemma gv_total_cons v g : gv_total (v :: g) = vcontrib v ⊕ gv_total g.
+Proof. reflexivity. Qed.
+
+Lemma gv_total_snoc g v : gv_total (g ++ [v]) ≡ gv_total g ⊕ vcontrib v.
+Proof.
+  unfold gv_total. rewrite map_app, sum_contrib_app. cbn [map]. rewrite sum_contrib_cons.
+  change (sum_contrib [] []) with szero. rewrite splus_zero_r. reflexivity.
+Qed.
+
+Lemma gv_add_spec g v :
+  exists g', gv_add g v = Done g' /\ gv_total g' ≡ gv_total g ⊕ vcontrib v /\ (gv_wf g -> gv_wf g').
+Proof.
+  unfold gv_add. destruct g as [|h r].
+  - eexists; split; [reflexivity|]. split.
+    + rewrite gv_total_cons. apply splus_comm.
+    + intros _. constructor.
+  - destruct (is_text v) eqn:Tv.
+    { eexists; split; [reflexivity|]. split; [apply gv_total_snoc|].
+      unfold gv_wf. cbn [tl app]. intro W. apply Forall_app. split; [exact W|]. repeat constructor. exact Tv. }
+    destruct (is_text h) eqn:Th.
+    { eexists; split; [reflexivity|]. split.
+      - rewrite (gv_total_cons v). apply splus_comm.
+      - unfold gv_wf. cbn [tl]. intro W. constructor; assumption. }
+    destruct (value_add h v) as [s|] eqn:Hv.
+    2:{ apply value_add_none in Hv. rewrite Th, Tv in Hv. discriminate. }
+    eexists; split; [reflexivity|]. split.
+    + destruct (value_add_pair _ _ _ Hv) as (pa & pb & pv & Hpa & Hpb & Hpv & Hsum).
+      rewrite !gv_total_cons. unfold vcontrib.
+      rewrite (contrib_pair [] (vq s) pv) by exact Hpv. rewrite (contrib_pair [] (vq h) pa) by exact Hpa.
+      rewrite (contrib_pair [] (vq v) pb) by exact Hpb. cbn [vq qunit].
+      rewrite (bucket_proper [] None _ _ Hsum), <- bucket_add.
+      generalize (bucket [] None pa) (bucket [] None pb) (gv_total r). intros A B R. smon.
+    + unfold gv_wf. cbn [tl]. intro W; exact W.
+Qed.
+
+Lemma gv_add_all_spec vs : forall g,
+  exists g', gv_add_all g vs = Done g' /\ gv_total g' ≡ gv_total g ⊕ ssum (map vcontrib vs) /\ (gv_wf g -> gv_wf g').
+Proof.
+  induction vs as [|v r IH]; intro g; cbn [gv_add_all map ssum].
+  - exists g. split; [reflexivity|]. split; [symmetry; apply splus_zero_r | auto].
+  - destruct (gv_add_spec g v) as (g1 & H1 & H2 & W1). rewrite H1. cbn [obind].
+    destruct (IH g1) as (g2 & H3 & H4 & W2). exists g2. split; [exact H3|]. split; [|auto].
+    rewrite H4, H2. apply splus_assoc.
+Qed.
+
+Lemma gv_total_ssum g : gv_total g = ssum (map vcontrib g).
+Proof. unfold gv_total, sum_contrib. rewrite map_map. reflexivity. Qed.
+
+Lemma gv_merge_spec a b :
+  exists g, gv_merge a b = Done g /\ gv_total g ≡ gv_total a ⊕ gv_total b /\ (gv_wf a -> gv_wf g).
+Proof. unfold gv_merge. rewrite (gv_total_ssum b). apply gv_add_all_spec. Qed.
+
+(* ------------------------------------------------------------------ *)
+(* Part 4a: one BTreeMap operation, as a permutation of the entries    *)
+
+Lemma bt_alter_perm {V} k (f : option V -> outcome V) m : forall m',
+  bt_alter k f m = Done m' ->
+  exists o v, f o = Done v /\
+    match o with
+    | None => Permutation m' ((k, v) :: m)
+    | Some v0 => exists m0, Permutation m ((k, v0) :: m0) /\ Permutation m' ((k, v) :: m0)
+    end.
+Proof.
+  induction m as [|[k' v'] r IH]; intros m'; cbn [bt_alter].
+  - destruct (f None) as [v|] eqn:F; cbn [obind]; intro H; inversion H; subst.
+    exists None, v. split; [exact F|]. reflexivity.
+  - destruct (str_eqb k k') eqn:E.
+    + apply str_eqb_eq in E. subst k'.
+      destruct (f (Some v')) as [v|] eqn:F; cbn [obind]; intro H; inversion H; subst.
+      exists (Some v'), v. split; [exact F|]. exists r. split; reflexivity.
+    + destruct (str_ltb k k').
+      * destruct (f None) as [v|] eqn:F; cbn [obind]; intro H; inversion H; subst.
+        exists None, v. split; [exact F|]. reflexivity.
+      * destruct (bt_alter k f r) as [r'|] eqn:B; cbn [obind]; intro H; inversion H; subst.
+        destruct (IH r' eq_refl) as (o & v & F & P). exists o, v. split; [exact F|].
+        destruct o as [v0|].
+        -- destruct P as (m0 & P1 & P2). exists ((k', v') :: m0). split.
+           ++ rewrite P1. apply perm_swap.
+           ++ rewrite P2. apply perm_swap.
+        -- rewrite P. apply perm_swap.
+Qed.
+
+Lemma bt_alter_total {V} k (f : option V -> outcome V) m :
+  (forall o, exists v, f o = Done v) -> exists m', bt_alter k f m = Done m'.
+Proof.
+  intro Hf. induction m as [|[k' v'] r IH]; cbn [bt_alter].
+  - destruct (Hf None) as [v F]. rewrite F. eexists; reflexivity.
+  - destruct (str_eqb k k').
+    + destruct (Hf (Some v')) as [v F]. rewrite F. eexists; reflexivity.
+    + destruct (str_ltb k k').
+      * destruct (Hf None) as [v F]. rewrite F. eexists; reflexivity.
+      * destruct IH as [r' B]. rewrite B. eexists; reflexivity.
+Qed.
+
+(* ------------------------------------------------------------------ *)
+(* Part 4b: categorize                                                 *)
+
+(* where an entry of a categorized list lives: Some category / None = the
+   uncategorized rest (shown last, as "other"), and the name inside it *)
+Definition ckey := (option str * str)%type.
+
+Definition ckey_eqb (a b : ckey) : bool := ostr_eqb (fst a) (fst b) && str_eqb (snd a) (snd b).
+
+(* where the aisle information sends a listed name *)
+Definition dest (inf : list (str * (str * str))) (name : str) : ckey :=
+  match info_get name inf with
+  | Some (category, common) => (Some category, common)
+  | None => (None, name)
+  end.
+
+Definition rekey (inf : list (str * (str * str))) (e : str * gq) : ckey * gq := (dest inf (fst e), snd e).
+
+Definition tag (c : str) (e : str * gq) : ckey * gq := ((Some c, fst e), snd e).
+Definition cat_entries (cats : list (str * ilist)) : list (ckey * gq) :=
+  flat_map (fun ci => map (tag (fst ci)) (snd ci)) cats.
+Definition untagged (e : str * gq) : ckey * gq := ((None, fst e), snd e).
+
+(* everything CategorizedIngredientList::iter shows, with its place *)
+Definition entries (c : clist) : list (ckey * gq) := cat_entries (ccats c) ++ map untagged (cother c).
+
+(* the known class: two listed names are sent to the same (category, common name) *)
+Definition pair_eqb (a b : str * str) : bool := str_eqb (fst a) (fst b) && str_eqb (snd a) (snd b).
+Fixpoint dup_b (l : list (str * str)) : bool :=
+  match l with
+  | [] => false
+  | x :: r => existsb (pair_eqb x) r || dup_b r
+  end.
+Definition cat_dests (inf : list (str * (str * str))) (l : ilist) : list (str * str) :=
+  flat_map (fun e => opt_list (info_get (fst e) inf)) l.
+Definition synonym_collision (inf : list (str * (str * str))) (l : ilist) : bool := dup_b (cat_dests inf l).
+
+(* the total found under one key *)
+Definition key_total (T : table) (key : ckey) (es : list (ckey * gq)) : summary :=
+  ssum (map (fun e => if ckey_eqb (fst e) key then total T (snd e) else szero) es).
+
+(* conservation: under every key the categorized list shows the sum of the
+   listed entries sent there (so nothing is lost and nothing invented) *)
+Definition categorize_conserves (T : table) (inf : list (str * (str * str))) (l : ilist) (c : clist) : Prop :=
+  forall key, key_total T key (entries c) ≡ key_total T key (map (rekey inf) l).
+
+Lemma key_total_perm T key a b : Permutation a b -> key_total T key a ≡ key_total T key b.
+Proof. intro H. apply ssum_perm, Permutation_map, H. Qed.
+
+Lemma cat_entries_perm a b : Permutation a b -> Permutation (cat_entries a) (cat_entries b).
+Proof. apply Permutation_flat_map. Qed.
+
+Lemma pair_eqb_eq a b : pair_eqb a b = true <-> a = b.
+Proof.
+  destruct a as [a1 a2], b as [b1 b2]. unfold pair_eqb; cbn [fst snd]. rewrite andb_true_iff, !str_eqb_eq.
+  split; [intros [-> ->]; reflexivity | intro H; inversion H; auto].
+Qed.
+
+Lemma dup_b_false l : dup_b l = false -> NoDup l.
+Proof.
+  induction l as [|x r IH]; cbn [dup_b]; intro H; [constructor|].
+  apply orb_false_iff in H as [H1 H2]. constructor; [|auto].
+  intro Hin. assert (existsb (pair_eqb x) r = true); [|congruence].
+  apply existsb_exists. exists x. split; [exact Hin | apply pair_eqb_eq; reflexivity].
+Qed.
+
+Lemma dest_cases inf name :
+  (exists c n, info_get name inf = Some (c, n) /\ dest inf name = (Some c, n)) \/
+  (info_get name inf = None /\ dest inf name = (None, name)).
+Proof. unfold dest. destruct (info_get name inf) as [[c n]|]; [left; eauto | right; auto]. Qed.
+
+Lemma rekey_nodup inf l :
+  NoDup (map fst l) -> synonym_collision inf l = false -> NoDup (map fst (map (rekey inf) l)).
+Proof.
+  unfold synonym_collision. intros Hn Hc. apply dup_b_false in Hc. revert Hn Hc.
+  induction l as [|[name g] r IH]; cbn [map fst cat_dests flat_map]; intros Hn Hc; [constructor|].
+  inversion Hn as [|? ? Hnin Hn']; subst.
+  assert (Hr : NoDup (cat_dests inf r)).
+  { destruct (info_get name inf); cbn [opt_list app] in Hc; [inversion Hc; assumption | exact Hc]. }
+  constructor; [|apply IH; assumption].
+  unfold rekey at 1; cbn [fst snd]. rewrite map_map. intro Hin. apply in_map_iff in Hin as ([n2 g2] & E & Hin2).
+  unfold rekey in E; cbn [fst snd] in E.
+  destruct (dest_cases inf name) as [(c & n & I1 & D1) | (I1 & D1)];
+    destruct (dest_cases inf n2) as [(c2 & m2 & I2 & D2) | (I2 & D2)]; rewrite D1, D2 in E; inversion E; subst.
+  - (* both categorized alike: a collision *)
+    rewrite I1 in Hc. cbn [opt_list app] in Hc. inversion Hc as [|? ? Hnin2 _]; subst. apply Hnin2.
+    unfold cat_dests. apply in_flat_map. exists (n2, g2). split; [exact Hin2|]. cbn [fst]. rewrite I2. left; reflexivity.
+  - (* same name twice *)
+    apply Hnin. apply in_map_iff. exists (name, g2). split; [reflexivity | exact Hin2].
+Qed.
+
+(* one step of categorize (old behaviour) on a fresh key adds exactly the entry *)
+Lemma categorize_step_cat category common quantity cats :
+  ~ In (Some category, common) (map fst (cat_entries cats)) ->
+  exists cats',
+    bt_alter category (fun o => bt_alter common (put false quantity)
+                                  (match o with Some il => il | None => [] end)) cats = Done cats' /\
+    Permutation (cat_entries cats') (((Some category, common), quantity) :: cat_entries cats).
+Proof.
+  intro Hfresh.
+  destruct (bt_alter_total category (fun o => bt_alter common (put false quantity)
+              (match o with Some il => il | None => [] end)) cats) as [cats' Hb].
+  { intro o. apply bt_alter_total. intros [e|]; eexists; reflexivity. }
+  exists cats'. split; [exact Hb|].
+  destruct (bt_alter_perm _ _ _ _ Hb) as (o & il' & Hin & P).
+  destruct (bt_alter_perm _ _ _ _ Hin) as (o2 & v & Hput & P2).
+  assert (v = quantity) by (destruct o2; cbn in Hput; inversion Hput; reflexivity). subst v.
+  destruct o as [il0|].
+  - destruct P as (m0 & P0 & P1).
+    destruct o2 as [v0|].
+    + exfalso. apply Hfresh. destruct P2 as (i0 & Q0 & _).
+      apply (Permutation_in (l := map fst (cat_entries ((category, il0) :: m0)))).
+      { apply Permutation_map, cat_entries_perm. symmetry. exact P0. }
+      unfold cat_entries; cbn [flat_map fst snd]. rewrite map_app. apply in_or_app. left.
+      rewrite map_map. apply in_map_iff. exists (common, v0). split; [reflexivity|].
+      apply (Permutation_in (l := (common, v0) :: i0)); [symmetry; exact Q0 | left; reflexivity].
+    + rewrite (cat_entries_perm _ _ P1), (cat_entries_perm _ _ P0).
+      unfold cat_entries; cbn [flat_map fst snd]. rewrite (Permutation_map (tag category) P2). reflexivity.
+  - destruct o2 as [v0|].
+    + destruct P2 as (i0 & Q0 & _). apply Permutation_nil_cons in Q0. contradiction.
+    + rewrite (cat_entries_perm _ _ P).
+      unfold cat_entries; cbn [flat_map fst snd]. rewrite (Permutation_map (tag category) P2). reflexivity.
+Qed.
+
+Lemma categorize_step_other name quantity (oth : ilist) :
+  ~ In (None, name) (map fst (map untagged oth)) ->
+  exists oth', bt_alter name (fun _ => Done quantity) oth = Done oth' /\
+               Permutation (map untagged oth') (((None, name), quantity) :: map untagged oth).
+Proof.
+  intro Hfresh.
+  destruct (bt_alter_total name (fun _ : option gq => Done quantity) oth) as [oth' Hb].
+  { intro o. eexists; reflexivity. }
+  exists oth'. split; [exact Hb|].
+  destruct (bt_alter_perm _ _ _ _ Hb) as (o & v & Hv & P). inversion Hv; subst v.
+  destruct o as [v0|].
+  - exfalso. apply Hfresh. destruct P as (m0 & P0 & _). rewrite map_map.
+    apply in_map_iff. exists (name, v0). split; [reflexivity|].
+    apply (Permutation_in (l := (name, v0) :: m0)); [symmetry; exact P0 | left; reflexivity].
+  - rewrite (Permutation_map untagged P). reflexivity.
+Qed.
+
+Lemma categorize_from_perm inf l : forall c,
+  NoDup (map fst (entries c ++ map (rekey inf) l)) ->
+  exists c', categorize_from false inf l c = Done c' /\
+             Permutation (entries c') (entries c ++ map (rekey inf) l).
+Proof.
+  induction l as [|[name quantity] r IH]; intros c Hn; cbn [categorize_from map].
+  - exists c. split; [reflexivity|]. rewrite app_nil_r. reflexivity.
+  - assert (Hfresh : ~ In (dest inf name) (map fst (entries c))).
+    { rewrite map_app in Hn. cbn [map] in Hn. apply NoDup_remove_2 in Hn.
+      intro Hin. apply Hn. apply in_or_app. left. exact Hin. }
+    assert (Hstep : forall c1, Permutation (entries c1) ((dest inf name, quantity) :: entries c) ->
+              exists c', categorize_from false inf r c1 = Done c' /\
+                         Permutation (entries c') (entries c ++ rekey inf (name, quantity) :: map (rekey inf) r)).
+    { intros c1 P1. destruct (IH c1) as (c' & H1 & H2).
+      - apply (Permutation_NoDup (l := map fst (entries c ++ rekey inf (name, quantity) :: map (rekey inf) r)));
+          [|exact Hn].
+        apply Permutation_map. rewrite P1. unfold rekey at 1; cbn [fst snd app]. symmetry. apply Permutation_middle.
+      - exists c'. split; [exact H1|]. rewrite H2, P1. unfold rekey at 3; cbn [fst snd app]. apply Permutation_middle. }
+    unfold dest in Hfresh, Hstep. destruct (info_get name inf) as [[category common]|].
+    + unfold entries in Hfresh. rewrite map_app in Hfresh.
+      destruct (categorize_step_cat category common quantity (ccats c)) as (cats' & Hb & P).
+      { intro Hin. apply Hfresh. apply in_or_app. left. exact Hin. }
+      rewrite Hb. cbn [obind]. apply Hstep. unfold entries; cbn [ccats cother]. rewrite P. reflexivity.
+    + unfold entries in Hfresh. rewrite map_app in Hfresh.
+      destruct (categorize_step_other name quantity (cother c)) as (oth' & Hb & P).
+      { intro Hin. apply Hfresh. apply in_or_app. right. exact Hin. }
+      rewrite Hb. cbn [obind]. apply Hstep. unfold entries; cbn [ccats cother]. rewrite P.
+      symmetry. apply Permutation_middle.
+Qed.
+
+(* categorize (the code as it is) without a collision only re-keys: every
+   listed group is found verbatim under its destination, nothing else is there *)
+Lemma categorize_perm inf l :
+  NoDup (map fst l) -> synonym_collision inf l = false ->
+  exists c, categorize false inf l = Done c /\ Permutation (entries c) (map (rekey inf) l).
+Proof.
+  intros Hn Hc. unfold categorize.
+  destruct (categorize_from_perm inf l {| ccats := []; cother := [] |}) as (c & H1 & H2).
+  - cbn [entries ccats cother cat_entries flat_map map app]. apply rekey_nodup; assumption.
+  - exists c. split; [exact H1|]. exact H2.
+Qed.
+
+Lemma categorize_conserves_ok T inf l :
+  NoDup (map fst l) -> synonym_collision inf l = false ->
+  exists c, categorize false inf l = Done c /\ Permutation (entries c) (map (rekey inf) l)
+            /\ categorize_conserves T inf l c.
+Proof.
+  intros Hn Hc. destruct (categorize_perm inf l Hn Hc) as (c & H1 & H2).
+  exists c. split; [exact H1|]. split; [exact H2|]. intro key. apply key_total_perm, H2.
+Qed.
+
+From Coq Require Import String Ascii.
+
+(* ------------------------------------------------------------------ *)
+(* the recorded witness of the open finding (known_findings.json):
+   tuna 100 g + chicken of the sea 200 g, aisle line tuna|chicken of the sea *)
+
+Definition s_of (s : string) : str := map N_of_ascii (list_ascii_of_string s).
+
+Definition w_T : table := [(s_of "g", {| uid := 0; ratio := 1; difference := 0; upq := Mass |})].
+Definition w_ing (name : string) (v : Q) : ingredient :=
+  {| iname := s_of name; ialias := None; istem := None;
+     iqty := Some {| qval := VNum v; qunit := Some (s_of "g") |};
+     ihidden := false; iref := false; irecipe := false; irel := RDef [] |}.
+Definition w_recipe : list ingredient := [w_ing "tuna" 100; w_ing "chicken of the sea" 200].
+Definition w_list : ilist :=
+  match add_recipes w_T (fun q => Some q) [] [w_recipe] with Done l => l | Panic _ => [] end.
+Definition w_inf_collide := info [{| cname := s_of "canned"; cings := [[s_of "tuna"; s_of "chicken of the sea"]] |}].
+Definition w_inf_apart := info [{| cname := s_of "canned"; cings := [[s_of "tuna"]; [s_of "chicken of the sea"]] |}].
+
+Lemma w_list_nodup : NoDup (map fst w_list).
+Proof.
+  vm_compute. constructor; [intros [H|[]]; discriminate H|]. constructor; [intros []|constructor].
+Qed.
+
+Lemma categorize_refuted :
+  exists T inf l,
+    sane T = true /\ NoDup (map fst l) /\ synonym_collision inf l = true /\
+    exists c, categorize false inf l = Done c /\ ~ categorize_conserves T inf l c.
+Proof.
+  exists w_T, w_inf_collide, w_list.
+  split; [vm_compute; reflexivity|]. split; [exact w_list_nodup|]. split; [vm_compute; reflexivity|].
+  eexists. split; [vm_compute; reflexivity|].
+  intro H. specialize (H (Some (s_of "canned"), s_of "tuna")). destruct H as (H & _).
+  specialize (H Mass). vm_compute in H. destruct H as [H _]. discriminate H.
+Qed.
+
+(* the hypotheses of the positive theorem are satisfiable (same list, names on two lines) *)
+Lemma categorize_hyps_sat :
+  exists inf l, l <> [] /\ NoDup (map fst l) /\ synonym_collision inf l = false /\ cat_dests inf l <> [].
+Proof.
+  exists w_inf_apart, w_list. split; [vm_compute; discriminate|]. split; [exact w_list_nodup|].
+  split; [vm_compute; reflexivity | vm_compute; discriminate].
+Qed.
